@@ -72,6 +72,64 @@ Proof.
   apply (closed_inv_fwd bits _ _ _ Kmax k0 Hbits P1 P4 Hg Hik HkK). apply canon_row; [split; assumption | exact Hcm].
 Qed.
 
+(* canonical outputs, the other round trip, additivity *)
+Lemma rows_total (f : nat -> list Z) : (forall c, (c < nm)%nat -> length (f c) = n) ->
+  length (concat (map f (seq 0 nm))) = (nm * n)%nat /\ forall c, (c < nm)%nat -> rowsof (concat (map f (seq 0 nm))) c = f c.
+Proof.
+  intros Hf. set (f' := fun c => if (c <? nm)%nat then f c else repeat 0 n).
+  assert (Fl' : forall c, length (f' c) = n) by (intros c; unfold f'; destruct (Nat.ltb_spec c nm) as [Hcm|]; [apply Hf; exact Hcm | apply repeat_length]).
+  assert (Ef : map f (seq 0 nm) = map f' (seq 0 nm)) by (apply map_ext_in; intros c Hin; apply in_seq in Hin; unfold f'; replace (c <? nm)%nat with true by (symmetry; apply Nat.ltb_lt; lia); reflexivity).
+  rewrite Ef. split; [apply concat_rows_length; exact Fl'|]. intros c Hcm. unfold rowsof. change (firstn n (skipn (c * n) ?l)) with (slice l (c * n) n).
+  rewrite (slice_concat_rows f' n nm c Fl' Hcm). unfold f'. replace (c <? nm)%nat with true by (symmetry; apply Nat.ltb_lt; lia). reflexivity.
+Qed.
+Lemma canon_of_rows (f : nat -> list Z) : (forall c, (c < nm)%nat -> NTTClosed.canonical (nth c P 0) k0 (f c)) -> canon (concat (map f (seq 0 nm))).
+Proof.
+  intros Hf. destruct (rows_total f (fun c Hc => proj1 (Hf c Hc))) as [L R]. split; [exact L|]. intros c Hcm. rewrite (R c Hcm).
+  destruct (Hf c Hcm) as [Lc C]. apply Forall_forall. intros v Hin. destruct (In_nth _ _ 0 Hin) as (j & Hj & <-). apply C. rewrite <- Lc. exact Hj.
+Qed.
+Lemma fwd_row data c : canon data -> (c < nm)%nat -> ntt_fwd_s bits (nth c P 0) (nth c roots 0) Kmax k0 (rowsof data c) = ntt_fwd bits (nth c P 0) (nth c roots 0) Kmax k0 (rowsof data c) /\
+  NTTClosed.canonical (nth c P 0) k0 (ntt_fwd_s bits (nth c P 0) (nth c roots 0) Kmax k0 (rowsof data c)).
+Proof.
+  intros Hc Hcm. destruct (facts c Hcm) as [P1 P4]. destruct (Hrows c Hcm) as (_ & Hg & Hik). destruct (canon_row data c Hc Hcm) as [Ln Cn].
+  assert (E : ntt_fwd_s bits (nth c P 0) (nth c roots 0) Kmax k0 (rowsof data c) = ntt_fwd bits (nth c P 0) (nth c roots 0) Kmax k0 (rowsof data c)) by (apply (closed_struct_fwd bits _ _ Kmax k0 Hbits P1 P4 Hg HkK); exact Ln).
+  split; [exact E|]. rewrite E. apply (closed_fwd_canonical bits _ _ Kmax k0 Hbits P1 P4 Hg HkK). exact Ln.
+Qed.
+Lemma inv_row data c : canon data -> (c < nm)%nat -> ntt_inv_s bits (nth c P 0) (nth c roots 0) (nth c invk 0) Kmax k0 (rowsof data c) = ntt_inv bits (nth c P 0) (nth c roots 0) (nth c invk 0) Kmax k0 (rowsof data c) /\
+  NTTClosed.canonical (nth c P 0) k0 (ntt_inv_s bits (nth c P 0) (nth c roots 0) (nth c invk 0) Kmax k0 (rowsof data c)).
+Proof.
+  intros Hc Hcm. destruct (facts c Hcm) as [P1 P4]. destruct (Hrows c Hcm) as (_ & Hg & Hik). pose proof (canon_row data c Hc Hcm) as Cn.
+  split; [apply (closed_struct_inv bits _ _ _ Kmax k0 Hbits P1 P4 Hg HkK _ Cn)|].
+  rewrite ntt_inv_s_eq. split; [apply tab_length|]. intros i Hi. rewrite tab_nth by exact Hi. apply Z.mod_pos_bound. lia.
+Qed.
+Theorem fwd_canonical data : canon data -> exists d1, fwd (Z.of_nat n) (Z.of_nat nm) data ph sph om P = Some d1 /\ canon d1.
+Proof. intros Hc. eexists. split; [apply Hfwd; exact Hc|]. apply canon_of_rows. intros c Hcm. apply (fwd_row data c Hc Hcm). Qed.
+Theorem inv_canonical data y0 : canon data -> length y0 = S n -> exists d1 yf, invf fuel (Z.of_nat n) (Z.of_nat nm) data iom ipd ipi sipi P y0 = Some (d1, yf) /\ canon d1.
+Proof. intros Hc Hy. destruct (Hinv data y0 Hc Hy) as (yf & E). eexists. exists yf. split; [exact E|]. apply canon_of_rows. intros c Hcm. apply (inv_row data c Hc Hcm). Qed.
+Theorem round_trip_if data y0 : canon data -> length y0 = S n ->
+  exists d1 yf, invf fuel (Z.of_nat n) (Z.of_nat nm) data iom ipd ipi sipi P y0 = Some (d1, yf) /\ fwd (Z.of_nat n) (Z.of_nat nm) d1 ph sph om P = Some data.
+Proof.
+  intros Hc Hy. destruct (Hinv data y0 Hc Hy) as (yf & E). eexists. exists yf. split; [exact E|].
+  set (f := fun c => ntt_inv_s bits (nth c P 0) (nth c roots 0) (nth c invk 0) Kmax k0 (rowsof data c)).
+  assert (C1 : canon (concat (map f (seq 0 nm)))) by (apply canon_of_rows; intros c Hcm; apply (inv_row data c Hc Hcm)).
+  rewrite (Hfwd _ C1). f_equal. destruct (rows_total f (fun c Hcm => proj1 (proj2 (inv_row data c Hc Hcm)))) as [_ R].
+  destruct Hc as [Ld Cd]. transitivity (concat (map (fun c => slice data (c * n) n) (seq 0 nm))); [|apply (concat_rows_id n nm data Ld)]. f_equal. apply map_ext_in. intros c Hin. apply in_seq in Hin. assert (Hcm : (c < nm)%nat) by lia.
+  rewrite (R c Hcm). unfold f. destruct (facts c Hcm) as [P1 P4]. destruct (Hrows c Hcm) as (_ & Hg & Hik).
+  destruct (inv_row data c (conj Ld Cd) Hcm) as [E1 C2]. rewrite (closed_struct_fwd bits _ _ Kmax k0 Hbits P1 P4 Hg HkK) by (apply C2). rewrite E1.
+  apply (closed_fwd_inv bits _ _ _ Kmax k0 Hbits P1 P4 Hg Hik HkK). apply canon_row; [split; assumption | exact Hcm].
+Qed.
+Theorem fwd_additive a b s : canon a -> canon b -> canon s ->
+  (forall c j, (c < nm)%nat -> (j < n)%nat -> nth j (rowsof s c) 0 = (nth j (rowsof a c) 0 + nth j (rowsof b c) 0) mod nth c P 0) ->
+  exists A B S', fwd (Z.of_nat n) (Z.of_nat nm) a ph sph om P = Some A /\ fwd (Z.of_nat n) (Z.of_nat nm) b ph sph om P = Some B /\ fwd (Z.of_nat n) (Z.of_nat nm) s ph sph om P = Some S' /\
+    forall c j, (c < nm)%nat -> (j < n)%nat -> nth j (rowsof S' c) 0 = (nth j (rowsof A c) 0 + nth j (rowsof B c) 0) mod nth c P 0.
+Proof.
+  intros Ha Hb Hs Hsum. do 3 eexists. split; [apply Hfwd; exact Ha|]. split; [apply Hfwd; exact Hb|]. split; [apply Hfwd; exact Hs|].
+  intros c j Hcm Hj.
+  destruct (rows_total _ (fun c Hc => proj1 (proj2 (fwd_row a c Ha Hc)))) as [_ Ra]. destruct (rows_total _ (fun c Hc => proj1 (proj2 (fwd_row b c Hb Hc)))) as [_ Rb]. destruct (rows_total _ (fun c Hc => proj1 (proj2 (fwd_row s c Hs Hc)))) as [_ Rs].
+  rewrite (Ra c Hcm), (Rb c Hcm), (Rs c Hcm). rewrite (proj1 (fwd_row a c Ha Hcm)), (proj1 (fwd_row b c Hb Hcm)), (proj1 (fwd_row s c Hs Hcm)).
+  destruct (facts c Hcm) as [P1 P4]. destruct (Hrows c Hcm) as (_ & Hg & Hik).
+  apply (closed_fwd_linear bits _ _ Kmax k0 Hbits P1 P4 Hg HkK (rowsof a c) (rowsof b c) (rowsof s c)); try (apply canon_row; assumption); [intros t Ht; apply Hsum; assumption | exact Hj].
+Qed.
+
 (* the product: transform both factors, multiply row by row (ntt_mul: what the expression c = a * b stores, C07/C03), transform back *)
 Definition mulrows (A B : list Z) : list Z := concat (map (fun c => ntt_mul (nth c P 0) k0 (rowsof A c) (rowsof B c)) (seq 0 nm)).
 Theorem product a b y0 : canon a -> canon b -> length y0 = S n ->
@@ -113,6 +171,35 @@ Proof.
   apply (closed_product bits _ _ _ Kmax k0 Hbits P1 P4 Hg Hik HkK); [destruct (canon_row a c Ha Hcm) as [L _]; exact L | destruct (canon_row b c Hb Hcm) as [L _]; exact L].
 Qed.
 End RT.
+
+(* everything C01/C02 say of the transform pair, for a forward and an inverse function on whole polynomials *)
+Definition transforms_ok (P : list Z) (k0 nm : nat) (fwd : list Z -> option (list Z)) (invf : list Z -> list Z -> option (list Z * list Z)) : Prop :=
+  let n := (2 ^ S k0)%nat in let can := canon P k0 nm in let row := rowsof k0 in
+  (forall d, can d -> exists d1, fwd d = Some d1 /\ can d1) /\
+  (forall d y0, can d -> length y0 = S n -> exists d1 yf, invf d y0 = Some (d1, yf) /\ can d1) /\
+  (forall d y0, can d -> length y0 = S n -> exists d1 yf, fwd d = Some d1 /\ invf d1 y0 = Some (d, yf)) /\
+  (forall d y0, can d -> length y0 = S n -> exists d1 yf, invf d y0 = Some (d1, yf) /\ fwd d1 = Some d) /\
+  (forall a b s, can a -> can b -> can s -> (forall c j, (c < nm)%nat -> (j < n)%nat -> nth j (row s c) 0 = (nth j (row a c) 0 + nth j (row b c) 0) mod nth c P 0) ->
+     exists A B S', fwd a = Some A /\ fwd b = Some B /\ fwd s = Some S' /\ forall c j, (c < nm)%nat -> (j < n)%nat -> nth j (row S' c) 0 = (nth j (row A c) 0 + nth j (row B c) 0) mod nth c P 0) /\
+  (forall a b y0, can a -> can b -> length y0 = S n -> exists A B yf, fwd a = Some A /\ fwd b = Some B /\
+     invf (mulrows P k0 nm A B) y0 = Some (concat (map (fun c => nega_spec (nth c P 0) k0 (row a c) (row b c)) (seq 0 nm)), yf)).
+
+Theorem all_ok bits Kmax P roots invk (fwd : Z -> Z -> list Z -> list Z -> list Z -> list Z -> list Z -> option (list Z))
+  (invf : nat -> Z -> Z -> list Z -> list Z -> list Z -> list Z -> list Z -> list Z -> list Z -> option (list Z * list Z)) k0 nm fuel ph sph ipd ipi sipi om iom : 0 < bits -> (4 <= S k0 <= 30)%nat -> (S k0 <= Kmax)%nat ->
+  length ph = (nm * 2 ^ S k0)%nat -> length sph = (nm * 2 ^ S k0)%nat -> length ipd = nm -> length ipi = (nm * 2 ^ S k0)%nat -> length sipi = (nm * 2 ^ S k0)%nat -> length om = (nm * (2 ^ S k0 * 2))%nat -> length iom = (nm * (2 ^ S k0 * 2))%nat ->
+  (forall c, (c < nm)%nat -> Hrow bits (nth c P 0) /\ (nth c roots 0 ^ (2 ^ Z.of_nat Kmax)) mod nth c P 0 = nth c P 0 - 1 /\ (nth c invk 0 * 2 ^ Z.of_nat Kmax) mod nth c P 0 = 1) ->
+  (forall data, canon P k0 nm data -> fwd (Z.of_nat (2 ^ S k0)) (Z.of_nat nm) data ph sph om P = Some (concat (map (fun c => ntt_fwd_s bits (nth c P 0) (nth c roots 0) Kmax k0 (rowsof k0 data c)) (seq 0 nm)))) ->
+  (forall data y0, canon P k0 nm data -> length y0 = S (2 ^ S k0) -> exists yf, invf fuel (Z.of_nat (2 ^ S k0)) (Z.of_nat nm) data iom ipd ipi sipi P y0 =
+     Some (concat (map (fun c => ntt_inv_s bits (nth c P 0) (nth c roots 0) (nth c invk 0) Kmax k0 (rowsof k0 data c)) (seq 0 nm)), yf)) ->
+  transforms_ok P k0 nm (fun d => fwd (Z.of_nat (2 ^ S k0)) (Z.of_nat nm) d ph sph om P) (fun d y0 => invf fuel (Z.of_nat (2 ^ S k0)) (Z.of_nat nm) d iom ipd ipi sipi P y0).
+Proof.
+  intros Hb Hk HkK M1 M2 M3 M4 M5 M6 M7 HR Hf Hi. unfold transforms_ok. cbv zeta.
+  split; [intros d Hd; eapply fwd_canonical; eassumption|].
+  split; [intros d y0 Hd Hy; eapply inv_canonical; eassumption|].
+  split; [intros d y0 Hd Hy; eapply round_trip; eassumption|].
+  split; [intros d y0 Hd Hy; eapply round_trip_if; eassumption|].
+  split; [intros a b s Ha Hb' Hs Hsum; eapply fwd_additive; eassumption | intros a b y0 Ha Hb' Hy; eapply product; eassumption].
+Qed.
 
 Definition rt (fwd : list Z -> option (list Z)) (invf : list Z -> option (list Z * list Z)) (data : list Z) : Prop :=
   exists d1 yf, fwd data = Some d1 /\ invf d1 = Some (data, yf).
@@ -397,3 +484,135 @@ Proof.
     + intros d yy [Ld Cd] Hyy. exact (proj2 (proj2 (IV d yy Ld Cd Hyy))).
 Qed.
 End InstP.
+
+Section InstAll.
+Variables (P roots invk : list Z) (k0 nm fuel : nat) (ph0 sph0 ipd0 ipi0 sipi0 om0 iom0 : list Z).
+Notation n := (2 ^ S k0)%nat.
+Hypothesis Hk4 : (4 <= S k0)%nat.
+Hypothesis Hf : (S k0 < fuel)%nat.
+Hypothesis Hnm : Z.of_nat nm < 2 ^ 28.
+Hypothesis L1 : length ph0 = (nm * n)%nat.
+Hypothesis L2 : length sph0 = (nm * n)%nat.
+Hypothesis L3 : length ipd0 = nm.
+Hypothesis L4 : length ipi0 = (nm * n)%nat.
+Hypothesis L5 : length sipi0 = (nm * n)%nat.
+Hypothesis L6 : length om0 = (nm * (n * 2))%nat.
+Hypothesis L7 : length iom0 = (nm * (n * 2))%nat.
+
+Theorem source_transforms_u32 : (S k0 <= 15)%nat ->
+  (forall c, (c < nm)%nat -> rowok32 P roots invk c /\ (nth c roots 0 ^ (2 ^ Z.of_nat 15)) mod nth c P 0 = nth c P 0 - 1 /\ (nth c invk 0 * 2 ^ Z.of_nat 15) mod nth c P 0 = 1) ->
+  exists ph sph ipd ipi sipi om iom, gen_initialize_u32 fuel (Z.of_nat n) om0 iom0 ph0 sph0 ipd0 ipi0 sipi0 (Z.of_nat nm) roots P invk = Some (ph, sph, ipd, ipi, sipi, om, iom) /\
+    transforms_ok P k0 nm (fun d => gen_ntt_pow_phi_serial_u32 (Z.of_nat n) (Z.of_nat nm) d ph sph om P) (fun d y0 => gen_invntt_pow_invphi_serial_u32 fuel (Z.of_nat n) (Z.of_nat nm) d iom ipd ipi sipi P y0) /\
+    transforms_ok P k0 nm (fun d => gen_ntt_pow_phi_sse_u32 (Z.of_nat n) (Z.of_nat nm) d ph sph om P) (fun d y0 => gen_invntt_pow_invphi_sse_u32 fuel (Z.of_nat n) (Z.of_nat nm) d iom ipd ipi sipi P y0) /\
+    transforms_ok P k0 nm (fun d => gen_ntt_pow_phi_avx2_u32 (Z.of_nat n) (Z.of_nat nm) d ph sph om P) (fun d y0 => gen_invntt_pow_invphi_avx2_u32 fuel (Z.of_nat n) (Z.of_nat nm) d iom ipd ipi sipi P y0).
+Proof.
+  intros HkK HR.
+  destruct (source_initialize_u32 P roots invk k0 nm fuel ph0 sph0 ipd0 ipi0 sipi0 om0 iom0 HkK Hf Hnm (fun c Hc => proj1 (HR c Hc)) L1 L2 L3 L4 L5 L6 L7)
+    as (ph & sph & ipd & ipi & sipi & om & iom & E & (M1 & M2 & M3 & M4 & M5 & M6 & M7) & Rows).
+  exists ph, sph, ipd, ipi, sipi, om, iom. split; [exact E|].
+  assert (HRow : forall c, (c < nm)%nat -> Hrow 32 (nth c P 0)) by (intros c Hc; destruct (HR c Hc) as ((A & _) & _); exact A).
+  assert (HRg : forall c, (c < nm)%nat -> Hrow 32 (nth c P 0) /\ (nth c roots 0 ^ (2 ^ Z.of_nat 15)) mod nth c P 0 = nth c P 0 - 1 /\ (nth c invk 0 * 2 ^ Z.of_nat 15) mod nth c P 0 = 1)
+    by (intros c Hc; destruct (HR c Hc) as ((A & _) & B & C); auto).
+  assert (TF : forall c, (c < nm)%nat -> let p := nth c P 0 in let g := nth c roots 0 in let shp := map (fun v => (v * 2 ^ 32) / p) in
+     (forall i, (i < n)%nat -> nth (c * n + i) ph 0 = nth i (phis p g 15 k0) 0 /\ nth (c * n + i) sph 0 = nth i (shp (phis p g 15 k0)) 0) /\
+     (forall i, (i < n - 1)%nat -> nth (c * (n * 2) + i) om 0 = nth i (flat p (S k0) (omega p g 15 k0)) 0 /\ nth (c * (n * 2) + n + i) om 0 = nth i (shp (flat p (S k0) (omega p g 15 k0))) 0)).
+  { intros c Hc. destruct (Rows c Hc) as (_ & R1 & R2). cbv zeta in R1, R2 |- *. split; intros i Hi; [destruct (R1 i Hi) as (A & B & _ & _) | destruct (R2 i Hi) as (A & B & _ & _)]; split; assumption. }
+  assert (TI : forall c, (c < nm)%nat -> let p := nth c P 0 in let g := nth c roots 0 in let ik := nth c invk 0 in let shp := map (fun v => (v * 2 ^ 32) / p) in
+     (forall i, (i < n)%nat -> nth (c * n + i) ipi 0 = nth i (cs p g ik 15 k0) 0 /\ nth (c * n + i) sipi 0 = nth i (shp (cs p g ik 15 k0)) 0) /\
+     (forall i, (i < n - 1)%nat -> nth (c * (n * 2) + i) iom 0 = nth i (flat p (S k0) (invomega p g 15 k0)) 0 /\ nth (c * (n * 2) + n + i) iom 0 = nth i (shp (flat p (S k0) (invomega p g 15 k0))) 0)).
+  { intros c Hc. destruct (Rows c Hc) as (_ & R1 & R2). cbv zeta in R1, R2 |- *. split; intros i Hi; [destruct (R1 i Hi) as (_ & _ & A & B) | destruct (R2 i Hi) as (_ & _ & A & B)]; split; assumption. }
+  assert (FW : forall d, length d = (nm * n)%nat -> (forall c, (c < nm)%nat -> Forall (fun v => 0 <= v < nth c P 0) (firstn n (skipn (c * n) d))) -> _)
+    by (intros d Ld Cd; exact (proj1 (proj2 (source_ntt_pow_phi_pointwise 15 k0 nm P roots d ph sph om ltac:(lia) Hnm Ld ltac:(lia) ltac:(lia) ltac:(lia) Cd)) HRow TF)).
+  assert (IV : forall d yy, length d = (nm * n)%nat -> (forall c, (c < nm)%nat -> Forall (fun v => 0 <= v < nth c P 0) (firstn n (skipn (c * n) d))) -> length yy = S n -> _)
+    by (intros d yy Ld Cd Hyy; exact (proj1 (proj2 (source_invntt_pow_invphi 15 k0 nm fuel P roots invk d iom ipd ipi sipi yy ltac:(lia) HkK Hnm Hf Ld ltac:(lia) ltac:(lia) ltac:(lia) ltac:(lia) Hyy Cd (fun c Hc => proj1 (proj2 (HRg c Hc))))) HRow TI)).
+  cbv zeta in FW, IV.
+  split; [|split].
+  - apply (all_ok 32 15 P roots invk gen_ntt_pow_phi_serial_u32 gen_invntt_pow_invphi_serial_u32 k0 nm fuel ph sph ipd ipi sipi om iom ltac:(lia) ltac:(lia) HkK M1 M2 M3 M4 M5 M6 M7 HRg).
+    + intros d [Ld Cd]. exact (proj1 (FW d Ld Cd)).
+    + intros d yy [Ld Cd] Hyy. exact (proj1 (IV d yy Ld Cd Hyy)).
+  - apply (all_ok 32 15 P roots invk gen_ntt_pow_phi_sse_u32 gen_invntt_pow_invphi_sse_u32 k0 nm fuel ph sph ipd ipi sipi om iom ltac:(lia) ltac:(lia) HkK M1 M2 M3 M4 M5 M6 M7 HRg).
+    + intros d [Ld Cd]. exact (proj1 (proj2 (FW d Ld Cd))).
+    + intros d yy [Ld Cd] Hyy. exact (proj1 (proj2 (IV d yy Ld Cd Hyy))).
+  - apply (all_ok 32 15 P roots invk gen_ntt_pow_phi_avx2_u32 gen_invntt_pow_invphi_avx2_u32 k0 nm fuel ph sph ipd ipi sipi om iom ltac:(lia) ltac:(lia) HkK M1 M2 M3 M4 M5 M6 M7 HRg).
+    + intros d [Ld Cd]. exact (proj2 (proj2 (FW d Ld Cd))).
+    + intros d yy [Ld Cd] Hyy. exact (proj2 (proj2 (IV d yy Ld Cd Hyy))).
+Qed.
+Theorem source_transforms_u16 : (S k0 <= 9)%nat ->
+  (forall c, (c < nm)%nat -> rowok16 P roots invk c /\ (nth c roots 0 ^ (2 ^ Z.of_nat 9)) mod nth c P 0 = nth c P 0 - 1 /\ (nth c invk 0 * 2 ^ Z.of_nat 9) mod nth c P 0 = 1) ->
+  exists ph sph ipd ipi sipi om iom, gen_initialize_u16 fuel (Z.of_nat n) om0 iom0 ph0 sph0 ipd0 ipi0 sipi0 (Z.of_nat nm) roots P invk = Some (ph, sph, ipd, ipi, sipi, om, iom) /\
+    transforms_ok P k0 nm (fun d => gen_ntt_pow_phi_serial_u16 (Z.of_nat n) (Z.of_nat nm) d ph sph om P) (fun d y0 => gen_invntt_pow_invphi_serial_u16 fuel (Z.of_nat n) (Z.of_nat nm) d iom ipd ipi sipi P y0) /\
+    transforms_ok P k0 nm (fun d => gen_ntt_pow_phi_sse_u16 (Z.of_nat n) (Z.of_nat nm) d ph sph om P) (fun d y0 => gen_invntt_pow_invphi_sse_u16 fuel (Z.of_nat n) (Z.of_nat nm) d iom ipd ipi sipi P y0) /\
+    transforms_ok P k0 nm (fun d => gen_ntt_pow_phi_avx2_u16 (Z.of_nat n) (Z.of_nat nm) d ph sph om P) (fun d y0 => gen_invntt_pow_invphi_avx2_u16 fuel (Z.of_nat n) (Z.of_nat nm) d iom ipd ipi sipi P y0).
+Proof.
+  intros HkK HR.
+  destruct (source_initialize_u16 P roots invk k0 nm fuel ph0 sph0 ipd0 ipi0 sipi0 om0 iom0 HkK Hf Hnm (fun c Hc => proj1 (HR c Hc)) L1 L2 L3 L4 L5 L6 L7)
+    as (ph & sph & ipd & ipi & sipi & om & iom & E & (M1 & M2 & M3 & M4 & M5 & M6 & M7) & Rows).
+  exists ph, sph, ipd, ipi, sipi, om, iom. split; [exact E|].
+  assert (HRow : forall c, (c < nm)%nat -> Hrow 16 (nth c P 0)) by (intros c Hc; destruct (HR c Hc) as ((A & _) & _); exact A).
+  assert (HRg : forall c, (c < nm)%nat -> Hrow 16 (nth c P 0) /\ (nth c roots 0 ^ (2 ^ Z.of_nat 9)) mod nth c P 0 = nth c P 0 - 1 /\ (nth c invk 0 * 2 ^ Z.of_nat 9) mod nth c P 0 = 1)
+    by (intros c Hc; destruct (HR c Hc) as ((A & _) & B & C); auto).
+  assert (TF : forall c, (c < nm)%nat -> let p := nth c P 0 in let g := nth c roots 0 in let shp := map (fun v => (v * 2 ^ 16) / p) in
+     (forall i, (i < n)%nat -> nth (c * n + i) ph 0 = nth i (phis p g 9 k0) 0 /\ nth (c * n + i) sph 0 = nth i (shp (phis p g 9 k0)) 0) /\
+     (forall i, (i < n - 1)%nat -> nth (c * (n * 2) + i) om 0 = nth i (flat p (S k0) (omega p g 9 k0)) 0 /\ nth (c * (n * 2) + n + i) om 0 = nth i (shp (flat p (S k0) (omega p g 9 k0))) 0)).
+  { intros c Hc. destruct (Rows c Hc) as (_ & R1 & R2). cbv zeta in R1, R2 |- *. split; intros i Hi; [destruct (R1 i Hi) as (A & B & _ & _) | destruct (R2 i Hi) as (A & B & _ & _)]; split; assumption. }
+  assert (TI : forall c, (c < nm)%nat -> let p := nth c P 0 in let g := nth c roots 0 in let ik := nth c invk 0 in let shp := map (fun v => (v * 2 ^ 16) / p) in
+     (forall i, (i < n)%nat -> nth (c * n + i) ipi 0 = nth i (cs p g ik 9 k0) 0 /\ nth (c * n + i) sipi 0 = nth i (shp (cs p g ik 9 k0)) 0) /\
+     (forall i, (i < n - 1)%nat -> nth (c * (n * 2) + i) iom 0 = nth i (flat p (S k0) (invomega p g 9 k0)) 0 /\ nth (c * (n * 2) + n + i) iom 0 = nth i (shp (flat p (S k0) (invomega p g 9 k0))) 0)).
+  { intros c Hc. destruct (Rows c Hc) as (_ & R1 & R2). cbv zeta in R1, R2 |- *. split; intros i Hi; [destruct (R1 i Hi) as (_ & _ & A & B) | destruct (R2 i Hi) as (_ & _ & A & B)]; split; assumption. }
+  assert (FW : forall d, length d = (nm * n)%nat -> (forall c, (c < nm)%nat -> Forall (fun v => 0 <= v < nth c P 0) (firstn n (skipn (c * n) d))) -> _)
+    by (intros d Ld Cd; exact (proj1 (source_ntt_pow_phi_pointwise 9 k0 nm P roots d ph sph om ltac:(lia) Hnm Ld ltac:(lia) ltac:(lia) ltac:(lia) Cd) HRow TF)).
+  assert (IV : forall d yy, length d = (nm * n)%nat -> (forall c, (c < nm)%nat -> Forall (fun v => 0 <= v < nth c P 0) (firstn n (skipn (c * n) d))) -> length yy = S n -> _)
+    by (intros d yy Ld Cd Hyy; exact (proj1 (source_invntt_pow_invphi 9 k0 nm fuel P roots invk d iom ipd ipi sipi yy ltac:(lia) HkK Hnm Hf Ld ltac:(lia) ltac:(lia) ltac:(lia) ltac:(lia) Hyy Cd (fun c Hc => proj1 (proj2 (HRg c Hc)))) HRow TI)).
+  cbv zeta in FW, IV.
+  split; [|split].
+  - apply (all_ok 16 9 P roots invk gen_ntt_pow_phi_serial_u16 gen_invntt_pow_invphi_serial_u16 k0 nm fuel ph sph ipd ipi sipi om iom ltac:(lia) ltac:(lia) HkK M1 M2 M3 M4 M5 M6 M7 HRg).
+    + intros d [Ld Cd]. exact (proj1 (FW d Ld Cd)).
+    + intros d yy [Ld Cd] Hyy. exact (proj1 (IV d yy Ld Cd Hyy)).
+  - apply (all_ok 16 9 P roots invk gen_ntt_pow_phi_sse_u16 gen_invntt_pow_invphi_sse_u16 k0 nm fuel ph sph ipd ipi sipi om iom ltac:(lia) ltac:(lia) HkK M1 M2 M3 M4 M5 M6 M7 HRg).
+    + intros d [Ld Cd]. exact (proj1 (proj2 (FW d Ld Cd))).
+    + intros d yy [Ld Cd] Hyy. exact (proj1 (proj2 (IV d yy Ld Cd Hyy))).
+  - apply (all_ok 16 9 P roots invk gen_ntt_pow_phi_avx2_u16 gen_invntt_pow_invphi_avx2_u16 k0 nm fuel ph sph ipd ipi sipi om iom ltac:(lia) ltac:(lia) HkK M1 M2 M3 M4 M5 M6 M7 HRg).
+    + intros d [Ld Cd]. exact (proj2 (proj2 (FW d Ld Cd))).
+    + intros d yy [Ld Cd] Hyy. exact (proj2 (proj2 (IV d yy Ld Cd Hyy))).
+Qed.
+
+Variable Pn : list Z.
+Theorem source_transforms_u64 : (S k0 <= 20)%nat ->
+  (forall c, (c < nm)%nat -> rowok64 P Pn roots invk c /\ (nth c roots 0 ^ (2 ^ Z.of_nat 20)) mod nth c P 0 = nth c P 0 - 1 /\ (nth c invk 0 * 2 ^ Z.of_nat 20) mod nth c P 0 = 1) ->
+  exists ph sph ipd ipi sipi om iom, gen_initialize_u64 fuel (Z.of_nat n) om0 iom0 ph0 sph0 ipd0 ipi0 sipi0 (Z.of_nat nm) roots P Pn invk = Some (ph, sph, ipd, ipi, sipi, om, iom) /\
+    transforms_ok P k0 nm (fun d => gen_ntt_pow_phi_serial_u64 (Z.of_nat n) (Z.of_nat nm) d ph sph om P) (fun d y0 => gen_invntt_pow_invphi_serial_u64 fuel (Z.of_nat n) (Z.of_nat nm) d iom ipd ipi sipi P y0) /\
+    transforms_ok P k0 nm (fun d => gen_ntt_pow_phi_sse_u64 (Z.of_nat n) (Z.of_nat nm) d ph sph om P) (fun d y0 => gen_invntt_pow_invphi_sse_u64 fuel (Z.of_nat n) (Z.of_nat nm) d iom ipd ipi sipi P y0) /\
+    transforms_ok P k0 nm (fun d => gen_ntt_pow_phi_avx2_u64 (Z.of_nat n) (Z.of_nat nm) d ph sph om P) (fun d y0 => gen_invntt_pow_invphi_avx2_u64 fuel (Z.of_nat n) (Z.of_nat nm) d iom ipd ipi sipi P y0).
+Proof.
+  intros HkK HR.
+  destruct (source_initialize_u64 P Pn roots invk k0 nm fuel ph0 sph0 ipd0 ipi0 sipi0 om0 iom0 HkK Hf Hnm (fun c Hc => proj1 (HR c Hc)) L1 L2 L3 L4 L5 L6 L7)
+    as (ph & sph & ipd & ipi & sipi & om & iom & E & (M1 & M2 & M3 & M4 & M5 & M6 & M7) & Rows).
+  exists ph, sph, ipd, ipi, sipi, om, iom. split; [exact E|].
+  assert (HRow : forall c, (c < nm)%nat -> Hrow 64 (nth c P 0)) by (intros c Hc; destruct (HR c Hc) as ((A & _) & _); exact (h64 _ _ A)).
+  assert (HRg : forall c, (c < nm)%nat -> Hrow 64 (nth c P 0) /\ (nth c roots 0 ^ (2 ^ Z.of_nat 20)) mod nth c P 0 = nth c P 0 - 1 /\ (nth c invk 0 * 2 ^ Z.of_nat 20) mod nth c P 0 = 1)
+    by (intros c Hc; destruct (HR c Hc) as ((A & _) & B & C); pose proof (h64 _ _ A); auto).
+  assert (TF : forall c, (c < nm)%nat -> let p := nth c P 0 in let g := nth c roots 0 in let shp := map (fun v => (v * 2 ^ 64) / p) in
+     (forall i, (i < n)%nat -> nth (c * n + i) ph 0 = nth i (phis p g 20 k0) 0 /\ nth (c * n + i) sph 0 = nth i (shp (phis p g 20 k0)) 0) /\
+     (forall i, (i < n - 1)%nat -> nth (c * (n * 2) + i) om 0 = nth i (flat p (S k0) (omega p g 20 k0)) 0 /\ nth (c * (n * 2) + n + i) om 0 = nth i (shp (flat p (S k0) (omega p g 20 k0))) 0)).
+  { intros c Hc. destruct (Rows c Hc) as (_ & R1 & R2). cbv zeta in R1, R2 |- *. split; intros i Hi; [destruct (R1 i Hi) as (A & B & _ & _) | destruct (R2 i Hi) as (A & B & _ & _)]; split; assumption. }
+  assert (TI : forall c, (c < nm)%nat -> let p := nth c P 0 in let g := nth c roots 0 in let ik := nth c invk 0 in let shp := map (fun v => (v * 2 ^ 64) / p) in
+     (forall i, (i < n)%nat -> nth (c * n + i) ipi 0 = nth i (cs p g ik 20 k0) 0 /\ nth (c * n + i) sipi 0 = nth i (shp (cs p g ik 20 k0)) 0) /\
+     (forall i, (i < n - 1)%nat -> nth (c * (n * 2) + i) iom 0 = nth i (flat p (S k0) (invomega p g 20 k0)) 0 /\ nth (c * (n * 2) + n + i) iom 0 = nth i (shp (flat p (S k0) (invomega p g 20 k0))) 0)).
+  { intros c Hc. destruct (Rows c Hc) as (_ & R1 & R2). cbv zeta in R1, R2 |- *. split; intros i Hi; [destruct (R1 i Hi) as (_ & _ & A & B) | destruct (R2 i Hi) as (_ & _ & A & B)]; split; assumption. }
+  assert (FW : forall d, length d = (nm * n)%nat -> (forall c, (c < nm)%nat -> Forall (fun v => 0 <= v < nth c P 0) (firstn n (skipn (c * n) d))) -> _)
+    by (intros d Ld Cd; exact (proj2 (proj2 (source_ntt_pow_phi_pointwise 20 k0 nm P roots d ph sph om ltac:(lia) Hnm Ld ltac:(lia) ltac:(lia) ltac:(lia) Cd)) HRow TF)).
+  assert (IV : forall d yy, length d = (nm * n)%nat -> (forall c, (c < nm)%nat -> Forall (fun v => 0 <= v < nth c P 0) (firstn n (skipn (c * n) d))) -> length yy = S n -> _)
+    by (intros d yy Ld Cd Hyy; exact (proj2 (proj2 (source_invntt_pow_invphi 20 k0 nm fuel P roots invk d iom ipd ipi sipi yy ltac:(lia) HkK Hnm Hf Ld ltac:(lia) ltac:(lia) ltac:(lia) ltac:(lia) Hyy Cd (fun c Hc => proj1 (proj2 (HRg c Hc))))) HRow TI)).
+  cbv zeta in FW, IV.
+  split; [|split].
+  - apply (all_ok 64 20 P roots invk gen_ntt_pow_phi_serial_u64 gen_invntt_pow_invphi_serial_u64 k0 nm fuel ph sph ipd ipi sipi om iom ltac:(lia) ltac:(lia) HkK M1 M2 M3 M4 M5 M6 M7 HRg).
+    + intros d [Ld Cd]. exact (proj1 (FW d Ld Cd)).
+    + intros d yy [Ld Cd] Hyy. exact (proj1 (IV d yy Ld Cd Hyy)).
+  - apply (all_ok 64 20 P roots invk gen_ntt_pow_phi_sse_u64 gen_invntt_pow_invphi_sse_u64 k0 nm fuel ph sph ipd ipi sipi om iom ltac:(lia) ltac:(lia) HkK M1 M2 M3 M4 M5 M6 M7 HRg).
+    + intros d [Ld Cd]. exact (proj1 (proj2 (FW d Ld Cd))).
+    + intros d yy [Ld Cd] Hyy. exact (proj1 (proj2 (IV d yy Ld Cd Hyy))).
+  - apply (all_ok 64 20 P roots invk gen_ntt_pow_phi_avx2_u64 gen_invntt_pow_invphi_avx2_u64 k0 nm fuel ph sph ipd ipi sipi om iom ltac:(lia) ltac:(lia) HkK M1 M2 M3 M4 M5 M6 M7 HRg).
+    + intros d [Ld Cd]. exact (proj2 (proj2 (FW d Ld Cd))).
+    + intros d yy [Ld Cd] Hyy. exact (proj2 (proj2 (IV d yy Ld Cd Hyy))).
+Qed.
+End InstAll.
